@@ -118,3 +118,15 @@ def verify_taylor_coefficient_pytree(x, /):
             msg += f" However, leaf {i} has shape {xi_shape}"
             msg += f", while leaf 0 has shape {shape0}"
             raise ValueError(msg)
+
+
+def verify_taylor_coefficient_pytrees_match(mean, std, /):
+    """Verify that two Taylor-coefficient pytrees have equal structure and shapes."""
+    shape_mean = tree.tree_map(np.shape, [*mean])
+    shape_std = tree.tree_map(np.shape, [*std])
+    if shape_mean != shape_std:
+        msg = "Mean and standard deviation must be pytrees of the same structure"
+        msg += " and with the same leaf shapes."
+        msg += f" Received: mean with shapes {shape_mean}"
+        msg += f" and standard deviation with shapes {shape_std}."
+        raise ValueError(msg)
